@@ -4,9 +4,6 @@
 From SC Require Import Lib.Prelude Lib.Int Lib.Host Model.Nft Model.NftBits Model.NftBitsRun Run.NftCommon.
 Local Open Scope N_scope.
 
-Definition is_none {A} (o : option A) : bool := match o with None => true | Some _ => false end.
-Definition is_some {A} (o : option A) : bool := match o with None => false | Some _ => true end.
-
 Fixpoint nodupb (l : list N) : bool :=
   match l with [] => true | x :: r => negb (memN x r) && nodupb r end.
 
@@ -16,31 +13,20 @@ Definition count_owned (a : addr) (l : list (N * option addr)) : N :=
 Definition count_existing (l : list (N * option addr)) : N :=
   N.of_nat (length (filter (fun p => is_some (snd p)) l)).
 
-(* What a successful call may do, judged against the reference BEFORE the call:
-   - sequential / batch minting returns ids not below any id issued before, and unused;
-   - an explicitly minted id is unused (this is the quantifier of the property: fresh ids);
-   - a transfer or burn names the current owner of exactly that token. *)
+(* What a call may do, judged against the reference BEFORE the call (mints are judged by
+   [mint_scope], Run/NftCommon.v):
+   - a transfer or burn names the current owner of exactly that token;
+   - calls other than sequential / batch mints return nothing;
+   - the ledger cannot refuse to move ([Advance] never fails: a trace saying so is malformed). *)
 Definition c10_legal (g : ghost) (cl : call) (o : outcome) : bool :=
   match o with
-  | Fail => true
+  | Fail => match cl with Advance _ => false | _ => true end
   | Ok r =>
       match cl with
-      | MintSeq _ =>
-          match r with
-          | Some id => (g_next g <=? id) && is_none (rget (g_own g) id)
-          | None => false
-          end
-      | MintId _ id => is_none (rget (g_own g) id)
-      | BatchMint _ amount =>
-          match r with
-          | Some last =>
-              (1 <=? amount) && (amount <=? last + 1) && (g_next g <=? last + 1 - amount)
-              && is_none (rget (g_own g) (last + 1 - amount)) && is_none (rget (g_own g) last)
-          | None => false
-          end
+      | MintSeq _ | BatchMint _ _ => true
       | Transfer _ from _ id | TransferFrom _ _ from _ id | Burn _ from id | BurnFrom _ _ from id =>
-          oaddr_eqb (rget (g_own g) id) (Some from)
-      | _ => true
+          is_none r && oaddr_eqb (rget (g_own g) id) (Some from)
+      | _ => is_none r
       end
   end.
 
@@ -94,29 +80,51 @@ Definition enum_ok (full : bool) (g : ghost) (ob : obs) : bool :=
   && forallb (fun p => enum_list_ok (snd p) (cnt (g_cnt g) (fst p))
                          (fun id => oaddr_eqb (rget (g_own g) id) (Some (fst p)))) (o_otok ob).
 
+Definition is_nil {A} (l : list A) : bool := match l with [] => true | _ => false end.
+
+(* Well-formedness of an observation, CHECKED (a trace that hides state is rejected): the queried ids are
+   strictly increasing, contain the ids the call names, and in `full` mode contain every id 0 .. next_id+2
+   and every id that was ever assigned individually; every address that ever held a token is listed with
+   its balance; non-enumerable flavours carry no enumeration answers. [g] = the reference AFTER the call. *)
+Definition c10_shape_ok (fl : flavour) (full : bool) (g : ghost) (cl : call) (o : outcome) (ob : obs) : bool :=
+  let ids := map fst (o_owner ob) in
+  strictly_incr ids
+  && forallb (fun a => memN a (map fst (o_bal ob))) (map fst (g_cnt g))
+  && forallb (fun i => memN i ids) (call_ids cl o)
+  && (if full then covers_from ids 0 (N.to_nat (g_next g + 3)) && forallb (fun i => memN i ids) (point_ids (g_own g))
+      else true)
+  && match fl with FEnum => true | _ => (o_total ob =? 0) && is_nil (o_glob ob) && is_nil (o_otok ob) end.
+
 (* every observed getter against the reference AFTER the call *)
 Definition c10_obs_ok (fl : flavour) (full : bool) (g : ghost) (ob : obs) : bool :=
   (o_next ob =? g_next g)
   && forallb (fun p => oaddr_eqb (snd p) (rget (g_own g) (fst p))) (o_owner ob)
   && forallb (fun p => snd p =? cnt (g_cnt g) (fst p)) (o_bal ob)
-  && (if full then nodupb (map fst (o_owner ob))
-                   && forallb (fun p => snd p =? count_owned (fst p) (o_owner ob)) (o_bal ob)
-      else true)
+  && (if full then forallb (fun p => snd p =? count_owned (fst p) (o_owner ob)) (o_bal ob) else true)
   && match fl with FEnum => enum_ok full g ob | _ => true end.
 
 Definition c10_step_ok (fl : flavour) (c : cfg) (full : bool) (g : ghost) (x : call * outcome * obs) : bool :=
   let '(cl, o, ob) := x in
-  c10_legal g cl o && c10_live fl c g cl o && c10_obs_ok fl full (ghost_step g cl o) ob.
+  let g' := ghost_step g cl o in
+  c10_legal g cl o && c10_live fl c g cl o && c10_shape_ok fl full g' cl o ob && c10_obs_ok fl full g' ob.
 
-Fixpoint mon_from (fl : flavour) (c : cfg) (full : bool) (g : ghost) (l : list (call * outcome * obs)) (i : N) : N :=
+(* [strict] = false: a trace that leaves the property's quantifier (OutOfScope mint) is not judged from
+   that call on (verdict 0 = no violation inside the quantifier); [strict] = true: it is flagged there. *)
+Fixpoint mon_from (strict : bool) (fl : flavour) (c : cfg) (full : bool) (g : ghost) (l : list (call * outcome * obs)) (i : N) : N :=
   match l with
   | [] => 0
   | x :: r =>
-      if c10_step_ok fl c full g x
-      then mon_from fl c full (ghost_step g (fst (fst x)) (snd (fst x))) r (N.succ i)
-      else N.succ i
+      match mint_scope fl g (fst (fst x)) (snd (fst x)) with
+      | Illegal => N.succ i
+      | OutOfScope => if strict then N.succ i else 0
+      | InScope =>
+          if c10_step_ok fl c full g x
+          then mon_from strict fl c full (ghost_step g (fst (fst x)) (snd (fst x))) r (N.succ i)
+          else N.succ i
+      end
   end.
-Definition monitor (t : trace) : N := mon_from (t_fl t) (t_cfg t) (t_full t) (ghost0 (t_now0 t)) (t_steps t) 0.
+Definition monitor (t : trace) : N := mon_from false (t_fl t) (t_cfg t) (t_full t) (ghost0 (t_now0 t)) (t_steps t) 0.
+Definition monitor_strict (t : trace) : N := mon_from true (t_fl t) (t_cfg t) (t_full t) (ghost0 (t_now0 t)) (t_steps t) 0.
 
 (* ================= bit-level correspondence (consecutive flavour) =================
    The same calls are replayed through the bit-level transcription (Model/NftBitsRun.v) and compared
@@ -154,6 +162,14 @@ Record btrace := mkBTrace {
 
 Definition bcfg_okb (b : bcfg) (c : cfg) : bool := (0 <? W b) && (0 <? I b) && (ids_in_bucket c =? I b * W b).
 
+Fixpoint nseq (lo : N) (n : nat) : list N := match n with O => [] | S k => lo :: nseq (lo + 1) k end.
+(* a dump must list the buckets 0 .. next_id / IDS_IN_BUCKET + 1 (a missing dump is a disagreement) *)
+Definition dump_shape_ok (b : bcfg) (sb : bstate) (ds : list bdump) : bool :=
+  match ds with
+  | d :: _ => list_eqb N.eqb (map fst d) (nseq 0 (N.to_nat (next_id (fst sb) / ids_per_bucket b + 2)))
+  | [] => false
+  end.
+
 Fixpoint diffb_from (b : bcfg) (c : cfg) (sb : bstate) (l : list (call * outcome * obs)) (ds : list bdump) (i : N) : N :=
   match l with
   | [] => 0
@@ -162,6 +178,7 @@ Fixpoint diffb_from (b : bcfg) (c : cfg) (sb : bstate) (l : list (call * outcome
       let d := match ds with d :: _ => d | [] => [] end in
       if out_eqb o o'
          && forallb (fun p : N * option addr => oaddr_eqb (snd p) (cons_owner_of_b b sb' (fst p))) (o_owner ob)
+         && dump_shape_ok b sb' ds
          && bdump_eqb d (dump_model (snd sb') d)
       then diffb_from b c sb' r (tl ds) (N.succ i)
       else N.succ i
